@@ -35,6 +35,7 @@ Inductive status := PASS | FAIL | XFAIL | XPASS | SKIP | NOTERM.
 Definition all_statuses : list status := [PASS; FAIL; XFAIL; XPASS; SKIP; NOTERM].
 
 Definition status_str (s : status) : bytes :=
+  Eval vm_compute in
   match s with
   | PASS => bs "PASS" | FAIL => bs "FAIL" | XFAIL => bs "XFAIL"
   | XPASS => bs "XPASS" | SKIP => bs "SKIP" | NOTERM => bs "NOTERM"
@@ -234,6 +235,7 @@ Definition f_log := Eval vm_compute in bs "log".
 Definition f_exit := Eval vm_compute in bs "exit".
 Definition f_time := Eval vm_compute in bs "time".
 Definition f_duration := Eval vm_compute in bs "duration".
+Definition name_tags := Eval vm_compute in bs "tags".
 
 Definition int_field (r : row) (name : bytes) : Z :=
   match get_field r name with Some (VInt z) => z | _ => 0%Z end.
@@ -331,7 +333,7 @@ Definition parse_invocation (arch : bytes) (prev : option Z) (e : entry) (st : s
                             | Some c => write_log t2 (pjoin dir name_dmesg) c | None => t2 end in
                   let t4 := match assoc name_comment (all_files e) with
                             | Some c => write_log t3 (pjoin dir name_comment) c | None => t3 end in
-                  let cvs := has_tag name_tag_cvs (assoc (bs "tags") (all_files e)) in
+                  let cvs := has_tag name_tag_cvs (assoc name_tags (all_files e)) in
                   (* copy_patches *)
                   match mkdir_x t4 (pjoin dir name_diff) with
                   | None => None
